@@ -35,12 +35,18 @@ DESC={
 'C18-r9-2':("MultiPut skips a key it has already buffered in this call",'the same key twice in one MultiPut: the first value wins, the later one is dropped, the call answers true'),
 'C19-r9-1':("decodeDirEnt answers a free entry as soon as the stored name length is 0",'a name of 0 bytes (accepted by CREATE), then a listing, a second create or a rebuild of the name cache'),
 'C19-r9-2':("AllocBlock refuses when fewer than 16 log blocks are left",'a single allocating WRITE of 494 or 495 blocks (wtmax): answered OK with 493 blocks stored'),
-'C04-r9-1':("@C04-1@",'@n@'),
-'C04-r9-2':("@C04-2@",'@n@'),
-'C12-r9-1':("@C12-1@",'@n@'),
-'C12-r9-2':("@C12-2@",'@n@'),
-'C15-r9-1':("@C15-1@",'@n@'),
-'C15-r9-2':("@C15-2@",'@n@'),
+'C02-r9-1':("doRead bounds the count for a symbolic link by a new constant rtmax (Min(ip.Size, rtmax))",'a symbolic link whose target is longer than 64 KiB: READLINK answers OK with the first 65536 bytes'),
+'C02-r9-2':("Inode.Write raises Size outside the 'alloc || cnt > 0' arm (WriteInode stays inside)",'a zero-length WRITE beyond EOF, or a WRITE beyond EOF refused with NOSPC: the cached size grows, a restart takes it back'),
+'C02-r9-3':("RMDIR calls doRemove with REMOVE's flag (isdir = false)",'RMDIR of a regular file or symbolic link: unlinked, answered OK'),
+'C02-r9-4':("doCreate builds the reply's handle and attributes right after getAlloc, before InitDir and the write of the link target",'the size in a MKDIR or SYMLINK reply compared with the next GETATTR: 0 against 256 / the length of the target'),
+'C02-r9-5':("Inode.Write raises Size outside the 'alloc || cnt > 0' arm (found independently of C02-r9-2)",'a zero-length WRITE beyond EOF, or a WRITE beyond EOF refused with NOSPC'),
+'C02-r9-6':("doRead replaces a count of 0 by the object's size (instead of doing so for symbolic links)",'a READ with count 0 below EOF of a regular file: everything up to EOF is returned, unbounded by wtmax'),
+'C04-r9-1':("AllocInode initialises a half-freed inode in the cache before the IsShrinking test, and NAllocated counts only blocks (two cooperating edits)",'a crash in the middle of a large free, restart, a create handed that number: Abort keeps the cached inode, the helping shrinker commits it - live on disk, bitmap bit free, no name'),
+'C04-r9-2':("dir.AddName cuts a name longer than MAXNAMELEN to 112 bytes instead of refusing it (PATHCONF announces no_trunc = false); lookups use the full name",'the same over-long name created twice: two entries with the identical 112-byte name'),
+'C12-r9-1':("freed blocks are zeroed in a second journal operation committed after the freeing transaction",'a crash between the two commits of a REMOVE: the bitmap says free, the blocks hold the old bytes, a hole of the next file shows them'),
+'C12-r9-2':("the in-memory inode remembers its last doubly-indirect mapping (lastBn/lastBlk) and never forgets it",'access a block beyond 2 MB, truncate below it, let another file take the block, grow again and read the same logical block first'),
+'C15-r9-1':("PostAbort returns the blocks of an aborted transaction to the inode allocator (Ialloc.FreeNum(bn))",'a transaction aborted after it allocated a block (disk-full corner: an index block plus a data block with one block free): the block is lost until restart, on disks above 32768 blocks the server panics'),
+'C15-r9-2':("preCommit writes the bitmap bits in a journal operation of its own, committed ahead of the transaction",'a format (or a WRITE) cut between the two commits and run again: data blocks stay marked for good'),
 }
 M=json.load(open('/verif/seeded/MATRIX.json'))['seeds']
 for sid,(what,needs) in sorted(DESC.items()):
